@@ -153,7 +153,8 @@ def field_table():
             kind = "dictc"
             shapes["canon"] = [{"http": None}, {"gh": {"url": "https://g/{{path}}", "title": "t", "classes": ["c"]}}]
             shapes["alt"] = [["http", "ftp"], ("mailto",)]
-            shapes["bad"] = [5, None, [1], {1: None}, {"a": 5}, {"a": {"url": 1}}, {"a": {"title": 1}}, "http"]
+            shapes["bad"] = [5, None, [1], {1: None}, {"a": 5}, {"a": {"url": 1}}, {"a": {"title": 1}}, "http",
+                             {"a": {"url": "x", "classes": "abc"}}, {"a": {"url": "x", "classes": [1]}}, {"a": {"classes": ("c",)}}]
         elif n == "heading_slug_func":
             kind = "call"
             shapes["canon"] = [f5[1]]
